@@ -161,11 +161,20 @@ add_binfunc!(add_int_pow, pow, X_INT, Int, X_INT, |a: &LazyBigint,
             "cannot raise zero to a zero power",
             rt.clone(),
         )?)
+    } else if b.to_u32().is_none() && (a.is_zero() || a.is_one() || (-a.clone()).is_one()) {
+        // exponent beyond the machine range: only 0, 1 and -1 have a representable power
+        Ok(XValue::Int(if a.is_zero() || a.is_one() || (b % &LazyBigint::from(2)).is_zero() {
+            a.clone().abs()
+        } else {
+            a.clone()
+        }))
+    } else if b.to_u32().is_none() {
+        Err(ManagedXError::new("exponent too large", rt.clone())?)
     } else {
         rt.can_allocate_by(|| {
             b.to_usize()
                 .zip(a.bits().to_usize())
-                .map(|(b, a_bits)| (a_bits / 8) * b)
+                .and_then(|(b, a_bits)| (a_bits / 8).checked_mul(b))
         })?;
         Ok(XValue::Int(a.clone().pow(b.clone())))
     }
